@@ -1,2 +1,660 @@
-// Package c16: correspondence harness for property C16 (stub — registers nothing yet).
+// Package c16: the task state reported after a transition is the device's real state.
+//
+// Input (exhaustively enumerated, see generate):
+//
+//	(WIRING MODE FLAVOUR EVT SRC DST (outcome*))
+//	  WIRING   fn   the scripted device is the DoTransitionFunc handed to transitioner.NewTransitioner
+//	           rpc  the REAL executorcmd.NewClient (client.go doTransition) talks gRPC over loopback to a
+//	                fake OCC server that holds the scripted device
+//	  MODE     FAIRMQ | DIRECT                      (controlmode → which transitioner)
+//	  FLAVOUR  lenient | strict   strict = the device answers a request whose SrcState is not its own state
+//	                              with a gRPC error, as occ/plugin and occ/occlib do
+//	  EVT SRC DST  the O² transition asked of Commit
+//	  outcome  done | refused | errorState | reqLost | replyLost   one per request the transitioner issues
+//	(rule OK TRIG SAMEEVT STATEISDST)    one reply shape through the real client.doTransition (acceptance rule)
+//
+// Obs:   (REPORTED ERRKIND ((EVT SRC DST ARGS)*) FINAL)     ERRKIND = nil | rejected | transport
+//
+//	REPORTED is the finalState string Commit returned, FINAL the device's real state afterwards,
+//	the list is every EventInfo the device saw (DST is "-" with rpc wiring: it is not on the wire).
+//	rule rows: (NEWSTATE ERRKIND)
+//
+// The device graphs below are the Go half of the trusted device description (the other half is
+// lean/ControlModel/Model/FairMQ.lean fmqNext/directNext).
 package c16
+
+import (
+	"context"
+	"errors"
+	"fmt"
+	"io"
+	"net"
+	"os"
+	"regexp"
+	"strings"
+	"sync"
+
+	"github.com/AliceO2Group/Control/common/controlmode"
+	"github.com/AliceO2Group/Control/core/controlcommands"
+	"github.com/AliceO2Group/Control/executor/executorcmd"
+	"github.com/AliceO2Group/Control/executor/executorcmd/transitioner"
+	"github.com/AliceO2Group/Control/executor/executorcmd/transitioner/fairmq"
+	pb "github.com/AliceO2Group/Control/executor/protos"
+	"github.com/sirupsen/logrus"
+	"google.golang.org/grpc"
+	"google.golang.org/grpc/codes"
+	"google.golang.org/grpc/status"
+
+	"verifharness/fw"
+	"verifharness/rng"
+	"verifharness/sx"
+)
+
+var (
+	o2States  = []string{"STANDBY", "CONFIGURED", "RUNNING", "ERROR", "DONE"}
+	o2Events  = []string{"START", "STOP", "CONFIGURE", "RESET", "EXIT", "GO_ERROR", "RECOVER"}
+	dstOf     = map[string]string{"START": "RUNNING", "STOP": "CONFIGURED", "CONFIGURE": "CONFIGURED", "RESET": "STANDBY", "EXIT": "DONE", "GO_ERROR": "ERROR", "RECOVER": "STANDBY"}
+	outcomes  = []string{"done", "refused", "errorState", "reqLost", "replyLost"}
+	fmqStates = []string{fairmq.IDLE, fairmq.INITIALIZING_DEVICE, fairmq.INITIALIZED, fairmq.BOUND, fairmq.DEVICE_READY,
+		fairmq.READY, fairmq.RUNNING, fairmq.ERROR, fairmq.EXITING}
+	fmqEvents = []string{fairmq.EvtINIT_DEVICE, fairmq.EvtCOMPLETE_INIT, fairmq.EvtBIND, fairmq.EvtCONNECT, fairmq.EvtINIT_TASK,
+		fairmq.EvtRUN, fairmq.EvtSTOP, fairmq.EvtRESET_TASK, fairmq.EvtRESET_DEVICE, fairmq.EvtEND}
+)
+
+type edge struct{ state, evt string }
+
+// The FairMQ device graph (not in the repository; mirrored in Model/FairMQ.lean fmqNext).
+var fmqGraph = map[edge]string{
+	{"IDLE", "INIT DEVICE"}:                  "INITIALIZING DEVICE",
+	{"IDLE", "END"}:                          "EXITING",
+	{"INITIALIZING DEVICE", "COMPLETE INIT"}: "INITIALIZED",
+	{"INITIALIZED", "BIND"}:                  "BOUND",
+	{"INITIALIZED", "RESET DEVICE"}:          "IDLE",
+	{"BOUND", "CONNECT"}:                     "DEVICE READY",
+	{"BOUND", "RESET DEVICE"}:                "IDLE",
+	{"DEVICE READY", "INIT TASK"}:            "READY",
+	{"DEVICE READY", "RESET DEVICE"}:         "IDLE",
+	{"READY", "RUN"}:                         "RUNNING",
+	{"READY", "RESET TASK"}:                  "DEVICE READY",
+	{"RUNNING", "STOP"}:                      "READY",
+	{"ERROR", "END"}:                         "EXITING",
+}
+
+// The OCC-library device graph (occ/occlib/OccServer.cxx processStateTransition; mirrored in directNext).
+var directGraph = map[edge]string{
+	{"STANDBY", "CONFIGURE"}: "CONFIGURED",
+	{"STANDBY", "EXIT"}:      "DONE",
+	{"CONFIGURED", "START"}:  "RUNNING",
+	{"CONFIGURED", "RESET"}:  "STANDBY",
+	{"CONFIGURED", "EXIT"}:   "DONE",
+	{"RUNNING", "STOP"}:      "CONFIGURED",
+	{"ERROR", "RECOVER"}:     "STANDBY",
+	{"ERROR", "EXIT"}:        "DONE",
+}
+
+// What the FAIRMQ device is in when the executor believes the task is in an O² state.
+var fmqOfO2 = map[string]string{"STANDBY": "IDLE", "CONFIGURED": "READY", "RUNNING": "RUNNING", "ERROR": "ERROR", "DONE": "EXITING"}
+
+// ---- the scripted device ---------------------------------------------------------------------------
+
+type device struct {
+	graph     map[edge]string
+	strict    bool
+	state     string
+	script    []string
+	pos       int
+	exhausted bool // a request arrived after the script ran out (it was refused)
+	trace     *sx.Node
+}
+
+type answer struct {
+	lost  bool // gRPC error: no reply
+	state string
+	ok    bool
+	trig  pb.StateChangeTrigger
+	evt   string
+}
+
+func (d *device) next() string {
+	if d.pos < len(d.script) {
+		o := d.script[d.pos]
+		d.pos++
+		return o
+	}
+	d.exhausted = true
+	d.pos++
+	return "refused"
+}
+
+func (d *device) step(evt, src, dst string, hasArgs bool) answer {
+	d.trace.Add(sx.L(sx.A(evt), sx.A(src), sx.A(dst), sx.B(hasArgs)))
+	o := d.next()
+	if d.strict && src != d.state {
+		return answer{lost: true}
+	}
+	to, valid := d.graph[edge{d.state, evt}]
+	switch o {
+	case "done":
+		if valid {
+			d.state = to
+			return answer{state: to, ok: true, trig: pb.StateChangeTrigger_EXECUTOR, evt: evt}
+		}
+		return answer{state: d.state, ok: false, trig: pb.StateChangeTrigger_DEVICE_INTENTIONAL, evt: evt}
+	case "refused":
+		return answer{state: d.state, ok: false, trig: pb.StateChangeTrigger_DEVICE_INTENTIONAL, evt: evt}
+	case "errorState":
+		d.state = "ERROR"
+		return answer{state: "ERROR", ok: false, trig: pb.StateChangeTrigger_DEVICE_ERROR, evt: evt}
+	case "reqLost":
+		return answer{lost: true}
+	case "replyLost":
+		if valid {
+			d.state = to
+		}
+		return answer{lost: true}
+	}
+	panic("unknown outcome " + o)
+}
+
+var (
+	errTransport = errors.New("occplugin returned Unavailable: scripted")
+	errRejected  = errors.New("transition unsuccessful: scripted")
+)
+
+// fn wiring: the device as a DoTransitionFunc, with client.go's acceptance rule re-stated (the rule itself
+// is exercised for real by the rpc wiring and the rule rows).
+func (d *device) doTransition(ei transitioner.EventInfo) (string, error) {
+	a := d.step(ei.Evt, ei.Src, ei.Dst, len(ei.Args) > 0)
+	if a.lost {
+		return "", errTransport
+	}
+	if a.ok && a.trig == pb.StateChangeTrigger_EXECUTOR && a.evt == ei.Evt && a.state == ei.Dst {
+		return a.state, nil
+	}
+	return a.state, errRejected
+}
+
+func errKind(err error) string {
+	switch {
+	case err == nil:
+		return "nil"
+	case strings.HasPrefix(err.Error(), "occplugin returned"), strings.HasPrefix(err.Error(), "invalid gRPC status"):
+		return "transport"
+	case strings.HasPrefix(err.Error(), "transition unsuccessful"):
+		return "rejected"
+	}
+	return "other"
+}
+
+// ---- rpc wiring: fake OCC server + the real client ----------------------------------------------------
+
+type rig struct {
+	pb.UnimplementedOccServer
+	mu     sync.Mutex
+	dev    *device  // scripted rows
+	canned *answer  // rule rows
+	srv    *grpc.Server
+	fmq    *executorcmd.RpcClient
+	direct *executorcmd.RpcClient
+}
+
+func (r *rig) Transition(_ context.Context, req *pb.TransitionRequest) (*pb.TransitionReply, error) {
+	r.mu.Lock()
+	defer r.mu.Unlock()
+	var a answer
+	if r.canned != nil {
+		a = *r.canned
+		if a.evt == "" {
+			a.evt = req.GetTransitionEvent()
+		}
+	} else if r.dev != nil {
+		a = r.dev.step(req.GetTransitionEvent(), req.GetSrcState(), "-", len(req.GetArguments()) > 0)
+	} else {
+		return nil, status.Error(codes.FailedPrecondition, "no device")
+	}
+	if a.lost {
+		return nil, status.Error(codes.Unavailable, "scripted transport error")
+	}
+	return &pb.TransitionReply{State: a.state, Ok: a.ok, Trigger: a.trig, TransitionEvent: a.evt}, nil
+}
+
+var (
+	rigOnce sync.Once
+	rigs    chan *rig
+	rigErr  error
+	allRigs []*rig
+)
+
+const nRigs = 4
+
+func newRig() (*rig, error) {
+	lis, err := net.Listen("tcp", "127.0.0.1:0")
+	if err != nil {
+		return nil, err
+	}
+	r := &rig{srv: grpc.NewServer()}
+	pb.RegisterOccServer(r.srv, r)
+	go r.srv.Serve(lis)
+	port := uint64(lis.Addr().(*net.TCPAddr).Port)
+	lg := logrus.New()
+	lg.SetOutput(io.Discard)
+	r.fmq = executorcmd.NewClient(port, controlmode.FAIRMQ, executorcmd.ProtobufTransport, logrus.NewEntry(lg).WithField("id", "t"))
+	r.direct = executorcmd.NewClient(port, controlmode.DIRECT, executorcmd.ProtobufTransport, logrus.NewEntry(lg).WithField("id", "t"))
+	if r.fmq == nil || r.direct == nil {
+		r.srv.Stop()
+		return nil, fmt.Errorf("executorcmd.NewClient could not dial the fake OCC server on port %d", port)
+	}
+	return r, nil
+}
+
+func getRig() (*rig, error) {
+	rigOnce.Do(func() {
+		rigs = make(chan *rig, nRigs)
+		for i := 0; i < nRigs; i++ {
+			r, err := newRig()
+			if err != nil {
+				rigErr = err
+				return
+			}
+			allRigs = append(allRigs, r)
+			rigs <- r
+		}
+	})
+	if rigErr != nil {
+		return nil, rigErr
+	}
+	return <-rigs, nil
+}
+
+func teardown() {
+	for _, r := range allRigs {
+		r.fmq.Close()
+		r.direct.Close()
+		r.srv.Stop()
+	}
+}
+
+// ---- one case ---------------------------------------------------------------------------------------
+
+type caseIn struct {
+	wiring, mode, flavour, evt, src, dst string
+	script                                []string
+}
+
+func parseCase(in *sx.Node) (c caseIn, err error) {
+	if in.Len() != 7 {
+		return c, fmt.Errorf("bad input arity")
+	}
+	c = caseIn{in.At(0).Str(), in.At(1).Str(), in.At(2).Str(), in.At(3).Str(), in.At(4).Str(), in.At(5).Str(), nil}
+	for _, o := range in.At(6).List {
+		c.script = append(c.script, o.Str())
+	}
+	return c, nil
+}
+
+func (c caseIn) String() string {
+	return sx.L(sx.A(c.wiring), sx.A(c.mode), sx.A(c.flavour), sx.A(c.evt), sx.A(c.src), sx.A(c.dst), sx.Strs(c.script)).String()
+}
+
+func newDevice(c caseIn) (*device, controlmode.ControlMode, error) {
+	d := &device{strict: c.flavour == "strict", script: c.script, trace: sx.L()}
+	switch c.mode {
+	case "FAIRMQ":
+		d.graph, d.state = fmqGraph, fmqOfO2[c.src]
+		return d, controlmode.FAIRMQ, nil
+	case "DIRECT":
+		d.graph, d.state = directGraph, c.src
+		return d, controlmode.DIRECT, nil
+	}
+	return nil, 0, fmt.Errorf("bad mode %q", c.mode)
+}
+
+var commitArgs = map[string]string{"k": "v"}
+
+// run executes one case on the real transitioner; also reports whether the script ran out.
+func run(c caseIn) (obs string, exhausted bool, err error) {
+	d, cm, err := newDevice(c)
+	if err != nil {
+		return "", false, err
+	}
+	if d.state == "" {
+		return "", false, fmt.Errorf("bad source %q", c.src)
+	}
+	var final string
+	var cerr error
+	// "fnfixed"/"rpcfixed": same run, but the driver compares with the model of the REPAIRED code
+	// (notes/C16.fix.patch); only generated when C16_EXPECT_FIXED is set (VERIF_REPO = patched tree).
+	switch strings.TrimSuffix(c.wiring, "fixed") {
+	case "fn":
+		tr := transitioner.NewTransitioner(cm, d.doTransition)
+		final, cerr = tr.Commit(c.evt, c.src, c.dst, commitArgs)
+	case "rpc":
+		r, err := getRig()
+		if err != nil {
+			return "", false, err
+		}
+		r.mu.Lock()
+		r.dev, r.canned = d, nil
+		r.mu.Unlock()
+		cl := r.direct
+		if cm == controlmode.FAIRMQ {
+			cl = r.fmq
+		}
+		// exactly what ControllableTask.Transition does: cmd.Commit() on the client's transitioner
+		cmd := executorcmd.NewLocalExecutorCommand_Transition(cl.Transitioner, "", nil, c.src, c.evt, c.dst, nil)
+		cmd.Arguments = controlcommands.PropertyMap(commitArgs)
+		final, cerr = cmd.Commit()
+		r.mu.Lock()
+		r.dev = nil
+		r.mu.Unlock()
+		rigs <- r
+	default:
+		return "", false, fmt.Errorf("bad wiring %q", c.wiring)
+	}
+	return sx.L(sx.A(final), sx.A(errKind(cerr)), d.trace, sx.A(d.state)).String(), d.exhausted, nil
+}
+
+func runRule(in *sx.Node) (string, error) {
+	if in.Len() != 5 {
+		return "", fmt.Errorf("bad rule arity")
+	}
+	a := answer{ok: in.At(1).Bool(), state: "CONFIGURED"}
+	switch in.At(2).Str() {
+	case "EXECUTOR":
+		a.trig = pb.StateChangeTrigger_EXECUTOR
+	case "DEVICE_INTENTIONAL":
+		a.trig = pb.StateChangeTrigger_DEVICE_INTENTIONAL
+	case "DEVICE_ERROR":
+		a.trig = pb.StateChangeTrigger_DEVICE_ERROR
+	default:
+		return "", fmt.Errorf("bad trigger")
+	}
+	if !in.At(3).Bool() {
+		a.evt = "OTHER"
+	}
+	if in.At(4).Bool() {
+		a.state = "RUNNING"
+	}
+	r, err := getRig()
+	if err != nil {
+		return "", err
+	}
+	r.mu.Lock()
+	r.dev, r.canned = nil, &a
+	r.mu.Unlock()
+	st, cerr := r.direct.Transitioner.Commit("START", "CONFIGURED", "RUNNING", nil)
+	r.mu.Lock()
+	r.canned = nil
+	r.mu.Unlock()
+	rigs <- r
+	return sx.L(sx.A(st), sx.A(errKind(cerr))).String(), nil
+}
+
+func runImpl(input string) (string, error) {
+	in, err := sx.Parse(input)
+	if err != nil {
+		return "", err
+	}
+	if in.Len() > 0 && in.At(0).Str() == "rule" {
+		return runRule(in)
+	}
+	c, err := parseCase(in)
+	if err != nil {
+		return "", err
+	}
+	obs, _, err := run(c)
+	return obs, err
+}
+
+// ---- exhaustive enumeration ---------------------------------------------------------------------------
+
+// scriptsFor enumerates every script the REAL code can consume for one cell: depth-first, a script is
+// extended by each of the five outcomes exactly when the implementation asked the device for one more
+// request than the script had. Every sequence over the outcome alphabet has exactly one enumerated prefix
+// with the same behaviour, so the enumeration is complete for the cell.
+func scriptsFor(c caseIn) ([][]string, error) {
+	var out [][]string
+	var rec func(s []string) error
+	rec = func(s []string) error {
+		c.script = s
+		c.wiring = "fn"
+		_, exhausted, err := run(c)
+		if err != nil {
+			return err
+		}
+		if !exhausted {
+			out = append(out, append([]string{}, s...))
+			return nil
+		}
+		if len(s) > 12 {
+			return fmt.Errorf("script keeps growing for %v", c)
+		}
+		for _, o := range outcomes {
+			if err := rec(append(append([]string{}, s...), o)); err != nil {
+				return err
+			}
+		}
+		return nil
+	}
+	err := rec(nil)
+	return out, err
+}
+
+func tagsOf(c caseIn) []string {
+	t := []string{"wiring=" + c.wiring, "mode=" + c.mode, "flavour=" + c.flavour, "evt=" + c.evt, fmt.Sprintf("requests=%d", len(c.script))}
+	has := map[string]bool{}
+	for _, o := range c.script {
+		has[o] = true
+	}
+	if has["reqLost"] || has["replyLost"] {
+		t = append(t, "has-transport-error")
+	}
+	if has["refused"] {
+		t = append(t, "has-refusal")
+	}
+	if has["errorState"] {
+		t = append(t, "has-error-state")
+	}
+	if len(c.script) > 0 && !has["reqLost"] && !has["replyLost"] && !has["refused"] && !has["errorState"] {
+		t = append(t, "all-done")
+	}
+	return t
+}
+
+func generate(tier string, _ *rng.R) []fw.Case {
+	var cs []fw.Case
+	fixedSuffix := ""
+	if os.Getenv("C16_EXPECT_FIXED") != "" {
+		fixedSuffix = "fixed"
+	}
+	for _, mode := range []string{"FAIRMQ", "DIRECT"} {
+		for _, flavour := range []string{"lenient", "strict"} {
+			for _, evt := range o2Events {
+				for _, src := range o2States {
+					c := caseIn{mode: mode, flavour: flavour, evt: evt, src: src, dst: dstOf[evt]}
+					scripts, err := scriptsFor(c)
+					if err != nil {
+						// an input that cannot be enumerated still shows up (and fails) as a case
+						cs = append(cs, fw.Case{Input: "(enumeration-failed " + sx.A(err.Error()).String() + ")", Tags: []string{"enumeration-failed"}})
+						continue
+					}
+					for _, wiring := range []string{"fn", "rpc"} {
+						for _, s := range scripts {
+							c.wiring, c.script = wiring+fixedSuffix, s
+							cs = append(cs, fw.Case{Input: c.String(), Tags: tagsOf(c)})
+						}
+					}
+				}
+			}
+		}
+	}
+	for _, ok := range []bool{true, false} {
+		for _, trig := range []string{"EXECUTOR", "DEVICE_INTENTIONAL", "DEVICE_ERROR"} {
+			for _, same := range []bool{true, false} {
+				for _, isDst := range []bool{true, false} {
+					cs = append(cs, fw.Case{Input: sx.L(sx.A("rule"), sx.B(ok), sx.A(trig), sx.B(same), sx.B(isDst)).String(), Tags: []string{"rule"}})
+				}
+			}
+		}
+	}
+	return cs
+}
+
+func nontrivial(input, obs string) bool {
+	o, err := sx.Parse(obs)
+	if err != nil {
+		return false
+	}
+	if strings.HasPrefix(input, "(rule ") {
+		return true
+	}
+	return o.Len() == 4 && o.At(2).Len() >= 1
+}
+
+func shrinkCands(input string) []string {
+	in, err := sx.Parse(input)
+	if err != nil || in.Len() != 7 {
+		return nil
+	}
+	c, _ := parseCase(in)
+	var out []string
+	if n := len(c.script); n > 0 {
+		c2 := c
+		c2.script = c.script[:n-1]
+		out = append(out, c2.String())
+	}
+	if strings.HasPrefix(c.wiring, "rpc") {
+		c2 := c
+		c2.wiring = "fn" + strings.TrimPrefix(c.wiring, "rpc")
+		out = append(out, c2.String())
+	}
+	return out
+}
+
+func init() {
+	fw.Register(&fw.Property{
+		ID:         "C16",
+		Generate:   generate,
+		RunImpl:    runImpl,
+		Nontrivial: nontrivial,
+		Rule: "EXHAUSTIVE: every (wiring fn|rpc, control mode FAIRMQ|DIRECT, device flavour lenient|strict, O² event (7), source state (5), " +
+			"outcome script) where the scripts of a cell are enumerated depth-first over {done, refused, errorState, reqLost, replyLost} for exactly " +
+			"the requests the real Commit issues; plus all 24 reply shapes (ok × trigger × event echo × state=dst) through the real client.doTransition; " +
+			"non-trivial = at least one request reached the device (the FAIRMQ GO_ERROR/RECOVER rows issue none); distinct by input text",
+		Shrink:     shrinkCands,
+		Exhaustive: func(string) bool { return true },
+		Workers:    4,
+		Teardown:   teardown,
+		TrustedBase: []string{
+			"harness/props/c16: scripted device (FairMQ device graph written in Go and in Model/FairMQ.lean fmqNext — not in the repository; " +
+				"OCC-library graph transcribed from occ/occlib/OccServer.cxx), fake OCC gRPC server, depth-first script enumeration",
+			"grpc-go loopback transport between the real executorcmd.NewClient and the fake OCC server (rpc wiring)",
+		},
+		Assumptions: []string{
+			"the device is in the image of the source state the transition request names when Commit starts",
+			"a device reply carries the device's real state (the adversary refuses, errors or loses messages but does not lie about its state)",
+			"strict flavour = SrcState mismatch answered with a gRPC error and no state change, as occ/plugin/OccFMQCommon.cxx and occ/occlib/OccServer.cxx do",
+		},
+	})
+	fw.RegisterGen(fw.GenFile{Name: "FairMQMaps.lean", Make: genMaps})
+}
+
+// ---- vh gen: tabulate the state maps by evaluating the linked transitioner ------------------------------
+
+func leanPairs(name, doc string, ps [][2]string) string {
+	var b strings.Builder
+	fmt.Fprintf(&b, "/-- %s -/\ndef %s : List (String × String) := [", doc, name)
+	for i, p := range ps {
+		if i > 0 {
+			b.WriteString(", ")
+		}
+		fmt.Fprintf(&b, "(%q, %q)", p[0], p[1])
+	}
+	b.WriteString("]\n\n")
+	return b.String()
+}
+
+func leanStrs(name, doc string, ss []string) string {
+	var b strings.Builder
+	fmt.Fprintf(&b, "/-- %s -/\ndef %s : List String := [", doc, name)
+	for i, s := range ss {
+		if i > 0 {
+			b.WriteString(", ")
+		}
+		fmt.Fprintf(&b, "%q", s)
+	}
+	b.WriteString("]\n\n")
+	return b.String()
+}
+
+var cppPair = regexp.MustCompile(`\{\s*"([^"]*)"\s*,\s*"([^"]*)"\s*\}`)
+
+// expectedFinal parses the EXPECTED_FINAL_STATE initialiser of an OCC header.
+func expectedFinal(path string) ([][2]string, error) {
+	data, err := os.ReadFile(path)
+	if err != nil {
+		return nil, err
+	}
+	src := string(data)
+	i := strings.Index(src, "EXPECTED_FINAL_STATE")
+	if i < 0 {
+		return nil, fmt.Errorf("%s: no EXPECTED_FINAL_STATE", path)
+	}
+	src = src[i:]
+	j := strings.Index(src, "};")
+	if j < 0 {
+		return nil, fmt.Errorf("%s: unterminated table", path)
+	}
+	var ps [][2]string
+	for _, m := range cppPair.FindAllStringSubmatch(src[:j], -1) {
+		ps = append(ps, [2]string{m[1], m[2]})
+	}
+	return ps, nil
+}
+
+func genMaps(repo string) (string, error) {
+	var b strings.Builder
+	b.WriteString("namespace Gen\n\n")
+	b.WriteString(leanStrs("fmqStateNames", "fairmq/states.go constants IDLE … EXITING, in the order of FairMQ.FState.", fmqStates))
+	b.WriteString(leanStrs("fmqEventNames", "fairmq/transitions.go constants EvtINIT_DEVICE … EvtEND, in the order of FairMQ.FEvent.", fmqEvents))
+
+	var seen transitioner.EventInfo
+	probe := func(ei transitioner.EventInfo) (string, error) { seen = ei; return "", errors.New("probe") }
+	fm := transitioner.NewTransitioner(controlmode.FAIRMQ, probe)
+	di := transitioner.NewTransitioner(controlmode.DIRECT, probe)
+
+	var from, fromD, to, toD [][2]string
+	for _, s := range append(append([]string{}, fmqStates...), fairmq.OK, "") {
+		from = append(from, [2]string{s, fm.FromDeviceState(s)})
+	}
+	for _, s := range append(append([]string{}, o2States...), "") {
+		fromD = append(fromD, [2]string{s, di.FromDeviceState(s)})
+	}
+	// the forward map is unexported: read it off the request the device receives for START src → dst
+	for _, s := range o2States {
+		fm.Commit("START", s, s, nil)
+		if seen.Src != seen.Dst {
+			return "", fmt.Errorf("START %s→%s reached the device as %q→%q", s, s, seen.Src, seen.Dst)
+		}
+		to = append(to, [2]string{s, seen.Src})
+		di.Commit("START", s, s, nil)
+		toD = append(toD, [2]string{s, seen.Src})
+	}
+	b.WriteString(leanPairs("fromDeviceStateFMQ", "(*FairMQ).FromDeviceState evaluated on every FairMQ state name, on \"OK\" and on \"\".", from))
+	b.WriteString(leanPairs("toDeviceStateFMQ", "The Src the device receives when (*FairMQ).Commit(\"START\", s, …) is called: fmqStateForState(s).", to))
+	b.WriteString(leanPairs("fromDeviceStateDirect", "(*Direct).FromDeviceState.", fromD))
+	b.WriteString(leanPairs("toDeviceStateDirect", "The Src the device receives from (*Direct).Commit.", toD))
+
+	pf, err := expectedFinal(repo + "/occ/plugin/OccFMQCommon.h")
+	if err != nil {
+		return "", err
+	}
+	pd, err := expectedFinal(repo + "/occ/occlib/OccServer.h")
+	if err != nil {
+		return "", err
+	}
+	b.WriteString(leanPairs("occFmqExpectedFinal", "EXPECTED_FINAL_STATE of occ/plugin/OccFMQCommon.h (event → state the OCC plugin expects).", pf))
+	b.WriteString(leanPairs("occDirectExpectedFinal", "EXPECTED_FINAL_STATE of occ/occlib/OccServer.h.", pd))
+	b.WriteString("end Gen\n")
+	return b.String(), nil
+}
